@@ -8,6 +8,8 @@
   The judge (`Spec.Check`, ops save/loadfrom) checks the real encoder/decoder and the real target cache against these.
 -/
 import OtterVerif.Spec.Core
+import OtterVerif.Conc.PersistSkeleton
+import OtterVerif.Gen.Skeleton
 import OtterVerif.Gen.Deadline
 
 namespace OtterVerif.Props.C19
@@ -106,5 +108,9 @@ theorem c19_filter_is_le (e now : Int) : Gen.Deadline.loadFilterSkips e now = de
 /-! ### Non-vacuity -/
 example : loadableFrom true 10 100 0 [(1, 10, 1, 100, 500), (2, 20, 1, 101, 500)] = [(2, 20, 1, 101, 500)] := by decide
 example : restoredDeadline 100 250 = 250 := by decide
+
+/-! ### The order of the calls in persistence.go is the one the theorems assume (regenerated on every run) -/
+theorem skeleton_LoadCacheFrom : Gen.Skeleton.LoadCacheFrom = Conc.PersistSkeleton.LoadCacheFrom := by decide
+theorem skeleton_SaveCacheTo : Gen.Skeleton.SaveCacheTo = Conc.PersistSkeleton.SaveCacheTo := by decide
 
 end OtterVerif.Props.C19
